@@ -308,3 +308,77 @@ def flw27_zero_row_tables_dropped_first(ctx):
                                                     'are not removed up front: a zero-row batch creates the table and its '
                                                     'catalogue rows, which are written again after the next flush + restart'),
               where(drops[0][1]) if drops else where(firsts[0][1]))
+
+
+# ------------------------------------------------------------------------------------ TBL-25
+def tbl25_decoder_validates_what_the_applier_assumes(ctx):
+    """The applier of a batch (`Buffer::push_typed_cols`, `InputColumn::from_column_data`) relies on two
+    shape facts of every column: it is not longer than the table, and the row indices of a sparse
+    column are strictly increasing and below the table length (it pads the gaps with
+    `push_nulls(i - next_i)`).  Both are facts about a *wire message*; the one place that can refuse a
+    message before it is written to the log is its decoder.  A schema-valid message that violates them
+    must come back as an error from `EventBuffer::deserialize_reader`."""
+    ctx.rule('TBL-25', 'EventBuffer::deserialize_reader refuses messages whose columns are longer than the table or '
+                       'whose sparse row indices are out of order / out of range (the applier assumes both and runs '
+                       'after the request has been written to the log)', floor=3)
+    P = ctx.P
+    F = P.one('event_buffer::EventBuffer::deserialize_reader')
+    F.parse()
+    du = DefUse(F)
+    cfg = CFG(F)
+    from .common import classify_result_use, err_return_blocks
+    # (a) sparse indices are validated by a fallible helper (or inline comparisons) in each sparse arm
+    idx_calls = [(blk, t) for (blk, t) in F.calls() if not blk.cleanup and norm_callee(t.func or '').endswith('::get_indices')]
+    ctx.require(len(idx_calls) >= 2, 'TBL-25: fewer than 2 sparse arms (get_indices) in deserialize_reader')
+    for k, (blk, t) in enumerate(idx_calls):
+        fw = du.forward(base_local(t.dest))
+        validated = False
+        for (b2, t2) in F.calls():
+            if b2.cleanup or not t2.args:
+                continue
+            if not any(base_local(a) in fw for a in t2.args):
+                continue
+            ty = F.local_type(base_local(t2.dest)) or ''
+            if 'result::Result<()' in ty.replace(' ', '') or 'Result<(), capnp::Error>' in ty:
+                use = classify_result_use(F, du, t2)
+                if use['kind'] in ('try', 'match', 'returned'):
+                    # the helper must compare an index with the table length
+                    for hb in P.resolve(t2.func, F.crate):
+                        hbs = [hb] + list(P.closures_of(hb))
+                        cmps = []
+                        for h2 in hbs:
+                            h2.parse()
+                            cmps += [s for bb in h2.blocks.values() for s in bb.stmts
+                                     if s.kind == 'assign' and re.match(r'^(Ge|Gt|Le|Lt)\(', s.rhs)]
+                        # range (index against the table length) and order (index against its predecessor)
+                        if len(cmps) >= 2:
+                            validated = True
+        ctx.check('TBL-25', 'deserialize_reader|sparse-indices-validated%s' % ('' if k == 0 else '#%d' % (k + 1)), validated,
+                  'the row indices of a sparse column %s' % ('are checked (order, range, one value per index) by a fallible '
+                                                             'helper whose error is propagated' if validated else
+                                                             'go into the EventBuffer unchecked: indices out of order or beyond the '
+                                                             'table length underflow `i - next_i` in the applier after the request was logged'),
+                  where(t))
+    # (b) column length against table length
+    lens = [(blk, t) for (blk, t) in F.calls() if not blk.cleanup and norm_callee(t.func or '').endswith('ColumnData::len')]
+    tl = [(blk, t) for (blk, t) in F.calls() if not blk.cleanup and norm_callee(t.func or '').endswith('::get_len')]
+    ok = False
+    site = None
+    if lens and tl:
+        tfw = set()
+        for (_b, t) in tl:
+            tfw |= du.forward(base_local(t.dest))
+        for (blk, t) in lens:
+            lfw = du.forward(base_local(t.dest))
+            for bid, bb in F.blocks.items():
+                for s in bb.stmts:
+                    m = re.match(r'^(Gt|Ge|Lt|Le)\((.*), (.*)\)$', s.rhs) if s.kind == 'assign' else None
+                    if m and {base_local(m.group(2)) in lfw, base_local(m.group(3)) in lfw} == {True, False} and \
+                            (base_local(m.group(2)) in tfw or base_local(m.group(3)) in tfw):
+                        ok = True
+                        site = s
+    ctx.check('TBL-25', 'deserialize_reader|column-not-longer-than-table', ok,
+              'the number of values of a column is %s' % ('compared with the table length before the column is accepted' if ok else
+                                                          'never compared with the table length: a dense column longer than the '
+                                                          'table fails an assertion in the applier after the request was logged'),
+              where(site) if site is not None else where(F.blocks[0].term))
